@@ -1,5 +1,6 @@
 import GapicModel.Driver.Base
 import GapicModel.Model.Mixins
+import GapicModel.Pinned.Funcs
 open Lean GapicModel
 namespace GapicModel.Driver
 
@@ -59,6 +60,8 @@ def restOutcomeJson : RestOutcome → Json
   | .sent v p b q => Json.mkObj [("outcome", sj "sent"), ("verb", sj v), ("path", sj p),
       ("body", match b with | none => Json.null | some r => reqJson r), ("query", reqJson q)]
 
+def names : Names := ⟨Pinned.reservedNames, Pinned.Funcs.fix_field_path⟩
+
 def allMethods : List String := allApis.flatMap (·.methods)
 
 def opTables (_ : Json) : Except String Json :=
@@ -77,7 +80,12 @@ def opSelect (j : Json) : Except String Json := do
     ("has", jarr ([MixinApi.locations, .iam, .operations].map fun a => Json.bool (hasMixin y a))),
     ("iam_overrides", Json.bool (iamOverrides y api)),
     ("methods", jarr (sel.map fun kv => jarr [sj kv.1, bindingJson kv.2.main, jarr (kv.2.additional.map bindingJson)])),
-    ("http", jarr ((mixinHttpOptions Pinned.reservedNames y api).map fun kv => jarr [sj kv.1, jarr (kv.2.map httpRuleJson)])),
+    ("http", jarr ((mixinHttpOptions names y api).map fun kv => jarr [sj kv.1, jarr (kv.2.map httpRuleJson)])),
+    ("signatures", jarr ((mixinApiSignatures Pinned.mixinsMap y api).map fun kv => jarr [sj kv.1,
+        match kv.2 with | none => Json.null | some t => jarr [sj t.1, sj t.2]])),
+    ("wrapped", jarr ((wrappedMixins y api).map sj)),
+    ("grpc_transport", jarr ((grpcTransportMixins y api o).map sj)),
+    ("rest_transport", jarr ((restTransportMixins y api).map sj)),
     ("exposed_sync", jarr ((exposedMixins y api o .sync).map sj)),
     ("exposed_async", jarr ((exposedMixins y api o .async).map sj)),
     ("grpc_sync", jarr (allMethods.map fun m => jarr [sj m, grpcOutcomeJson (grpcCall y api o .sync m)])),
@@ -88,7 +96,7 @@ def opRest (j : Json) : Except String Json := do
   let api ← apiOfJson (← j.getObjVal? "api")
   let m ← gs j "method"
   let req ← reqOfJson (← j.getObjVal? "req")
-  pure (restOutcomeJson (restCall refExt Pinned.reservedNames y api m req))
+  pure (restOutcomeJson (restCall refExt names y api m req))
 
 def opApply (j : Json) : Except String Json := do
   let r ← j.getObjVal? "rule"
